@@ -12,7 +12,8 @@
    Abstractions (stated, not hidden):
      * a column is (relation id, column id): the Rust resolves a column NAME to the set of relations
        having it (find_relations) and makes an edge only when both sides resolve to exactly one
-       relation; the model assumes that resolution succeeded (the binder qualifies columns) — the
+       relation; in the model a side resolves to its relation unless that relation is listed in
+       g_opaque (then to none, and the condition is kept as a filter instead of becoming an edge) — the
        correspondence check exercises the real resolution, shared column names included.
      * count_ones / trailing_zeros are read through `members` (bits below n); masks are N. *)
 From QV Require Export Base.Util.
@@ -41,7 +42,16 @@ Inductive ptree :=
 | PJoin (cross : bool) (on : list pred) (l r : ptree)   (* JoinNode: Cross, or Inner with on *)
 | PFilter (ps : list pred) (t : ptree).                  (* FilterNode with equality conjuncts *)
 
-Record graph := mkGraph { g_n : nat; g_conds : list pred }.
+(* g_conds : the equality conjuncts the rule reads first — those of the Filter above the join tree
+             (reorder_filter_with_join), or, without such a Filter, the ON pairs (reorder_join_tree).
+   g_on    : under a Filter, the ON pairs of the flattened joins, read after the Filter's conjuncts.
+             The ones that do not become edges are NOT re-applied on that path (only the Filter's own
+             predicate is rebuilt by rebuild_filter_without_join_conditions): they are dropped.
+   g_opaque: relations whose QUALIFIED column names do not resolve in find_relations (a relation that
+             reaches the rule wrapped in a Project is registered under the name "project", so `t1.c`
+             finds nothing): a condition touching one is not an edge.  Empty for plans from the binder. *)
+Record graph := mkGraph { g_n : nat; g_conds : list pred; g_on : list pred; g_opaque : list nat }.
+Definition g_all (g : graph) : list pred := g_conds g ++ g_on g.
 
 Definition mem (x : nat) (l : list nat) : bool := existsb (Nat.eqb x) l.
 
@@ -57,11 +67,14 @@ Fixpoint add_cond (es : list edge) (li ri : nat) (p : pred) : list edge :=
       else e :: add_cond rest li ri p
   end.
 
-(* a condition whose sides are in different relations joins an edge; same relation => remaining_conditions *)
-Definition extract_step (acc : list edge * list pred) (p : pred) : list edge * list pred :=
+(* `left_rels.len() == 1 && right_rels.len() == 1` fails for an unresolvable side => remaining_conditions;
+   a condition whose sides are in different relations joins an edge; same relation => remaining_conditions *)
+Definition extract_step (opq : list nat) (acc : list edge * list pred) (p : pred) : list edge * list pred :=
   let li := rel (fst p) in let ri := rel (snd p) in
-  if li =? ri then (fst acc, snd acc ++ [p]) else (add_cond (fst acc) li ri p, snd acc).
-Definition extract (conds : list pred) : list edge * list pred := fold_left extract_step conds ([], []).
+  if mem li opq || mem ri opq then (fst acc, snd acc ++ [p])
+  else if li =? ri then (fst acc, snd acc ++ [p]) else (add_cond (fst acc) li ri p, snd acc).
+Definition extract (opq : list nat) (conds : list pred) : list edge * list pred :=
+  fold_left (extract_step opq) conds ([], []).
 
 (* ---------- bit sets ---------- *)
 Definition bit (i : nat) : N := N.shiftl 1 (N.of_nat i).
@@ -254,7 +267,10 @@ Section Reorder.
   Variable gswap : ptree -> nat -> bool.
 
   Definition reorder (g : graph) : ptree :=
-    let '(es, rem) := extract (g_conds g) in
+    (* all_conditions = Filter conjuncts, then the join tree's ON pairs; edges from all of them *)
+    let es := fst (extract (g_opaque g) (g_all g)) in
+    (* conditions that did not become edges: kept only if they came from g_conds *)
+    let rem := snd (extract (g_opaque g) (g_conds g)) in
     let n := g_n g in
     let core :=
       match (if (2 <=? n) && (n <=? 12) then dpsize better keep_left n es else None) with
@@ -291,13 +307,14 @@ Fixpoint joins_ok (t : ptree) : bool :=
       negb cross && negb (is_nil on) && forallb (crossing_pred (leaves l) (leaves r)) on
       && joins_ok l && joins_ok r
   end.
+(* n leaves, and every relation 0..n-1 among them: each relation exactly once (Proofs.all_rels_once_perm) *)
 Definition all_rels_once (n : nat) (t : ptree) : bool :=
-  list_eqb Nat.eqb (isort Nat.leb (leaves t)) (seq 0 n).
+  (length (leaves t) =? n) && forallb (fun i => mem i (leaves t)) (seq 0 n).
 Definition preds_present (conds : list pred) (t : ptree) : bool :=
   forallb (fun p => existsb (pred_same p) (tree_preds t)) conds.
 
 Definition plan_ok (g : graph) (t : ptree) : bool :=
-  all_rels_once (g_n g) t && joins_ok t && preds_present (g_conds g) t.
+  all_rels_once (g_n g) t && joins_ok t && preds_present (g_all g) t.
 
 (* ---------- "t is a possible output of the DP" (for comparing the engine's tree with the model,
    whose split and orientation choices are cost-dependent and therefore free) ---------- *)
@@ -326,7 +343,7 @@ Fixpoint dp_shape_perm (es : list edge) (t : ptree) : bool :=
       && dp_shape_perm es l && dp_shape_perm es r
   end.
 Definition model_shape (g : graph) (t : ptree) : bool :=
-  all_rels_once (g_n g) t && dp_shape_perm (fst (extract (g_conds g))) t.
+  all_rels_once (g_n g) t && dp_shape_perm (fst (extract (g_opaque g) (g_all g))) t.
 
 (* ---------- connectivity, executable ---------- *)
 Definition neighbours (es : list edge) (S : list nat) : list nat :=
@@ -335,9 +352,11 @@ Fixpoint grow (fuel : nat) (es : list edge) (S : list nat) : list nat :=
   match fuel with O => S | S f => grow f es (S ++ neighbours es S) end.
 Definition connectedb (n : nat) (es : list edge) : bool :=
   forallb (fun i => mem i (grow n es [0])) (seq 0 n).
-Definition graph_connectedb (g : graph) : bool := connectedb (g_n g) (fst (extract (g_conds g))).
+Definition graph_connectedb (g : graph) : bool := connectedb (g_n g) (fst (extract (g_opaque g) (g_all g))).
 
 (* every predicate relates two different relations below n *)
 Definition wf_pred (n : nat) (p : pred) : bool :=
   (rel (fst p) <? n) && (rel (snd p) <? n) && negb (rel (fst p) =? rel (snd p)).
-Definition wf_graph (g : graph) : bool := forallb (wf_pred (g_n g)) (g_conds g).
+Definition wf_graph (g : graph) : bool := forallb (wf_pred (g_n g)) (g_all g).
+(* the class in which the rule is known to manufacture cross joins (see Proofs.opaque_relation_cross_join) *)
+Definition known_c (g : graph) : bool := negb (is_nil (g_opaque g)).
